@@ -123,12 +123,61 @@ def _key_fns(F, enum_path):
 
 
 def key_table(F, enum_path):
-    """variant -> key string, from the enum's keyword function"""
+    """variant -> key string, from the enum's keyword function - or, when the keyword function was inlined into the lookup
+    (`fields.iter().find(|f| match f { Enum::From(_) => key == "from", .. })`), from the per-variant comparisons there"""
     best = None
     for f in _key_fns(F, enum_path):
         t = _key_table_of(F, f, enum_path)
         if t and (best is None or sum(v is not None for v in t.values()) > sum(v is not None for v in best.values())):
             best = t
+    if best is None:
+        best = _key_table_by_compare(F, enum_path)
+    return best
+
+
+def _key_table_by_compare(F, enum_path):
+    adt = F.adt(enum_path)
+    best = None
+    for f in F.fns.values():
+        if f["crate"] != "tx3_lang" or is_derive(f) or not f["locals"]:
+            continue
+        for k in range(1, f.get("argc", 0) + 1):
+            if enum_path not in f["locals"][k]:
+                continue
+            arms = e3.variant_arms(f, k)
+            if not arms:
+                # `match field` on a `&&Enum` closure parameter goes through a copy of the reference: any switch on a
+                # discriminant of this enum in the body
+                for b_ in f["blocks"]:
+                    dl = None
+                    for st_ in b_["s"]:
+                        if st_["rv"]["k"] == "discr" and st_["rv"].get("adt") == enum_path:
+                            dl = st_["lhs"]["l"]
+                    t_ = b_["t"]
+                    if dl is not None and t_["k"] == "switch" and mir.op_place(t_["discr"]) is not None and mir.op_place(t_["discr"])["l"] == dl:
+                        arms = (enum_path, dict((v_, tb_) for v_, tb_ in t_["targets"]), t_["otherwise"])
+                        break
+            if not arms or arms[0] != enum_path:
+                continue
+            out = {}
+            for v in adt["variants"]:
+                cur = arms[1].get(v["discr"], arms[2])
+                seen, val = set(), None
+                while cur is not None and cur not in seen and val is None:
+                    seen.add(cur)
+                    b = f["blocks"][cur]
+                    t = b["t"]
+                    if t["k"] == "call" and (t.get("callee") or "").endswith("::eq") and "PartialEq" in (t.get("callee") or "") + (t.get("trait") or ""):
+                        du = mir.DefUse(f)
+                        for a in t["args"]:
+                            for o in mir.provenance(f, du, a):
+                                sv = mir.promoted_str(F, o.const) if o.kind == "const" else None
+                                if sv is not None:
+                                    val = sv
+                    cur = t.get("t") if t["k"] in ("goto", "call") and val is None else None
+                out[v["name"]] = val
+            if any(x is not None for x in out.values()) and (best is None or sum(x is not None for x in out.values()) > sum(x is not None for x in best.values())):
+                best = out
     return best
 
 
